@@ -663,7 +663,7 @@ func authTail(o *common.Out, id string, k int, ow bool) {
 		k = len(nf) + k
 	}
 	before := rg.invokedCount()
-	conn.SetDeadline(time.Now().Add(3 * time.Second))
+	conn.SetDeadline(time.Now().Add(8 * time.Second))
 	if _, err := conn.Write(append(bad.frame(), nf[:k]...)); err != nil {
 		o.Fail(id, "rig", err.Error(), abstract)
 		return
@@ -679,7 +679,7 @@ func authTail(o *common.Out, id string, k int, ow bool) {
 		}
 	}
 	if !closed {
-		o.Fail(id, "auth-failure-not-closed", fmt.Sprintf("the native connection was still open 3 s after failing authentication (%d bytes of a further frame were sent behind the rejected request)", k), abstract)
+		o.Fail(id, "auth-failure-not-closed", fmt.Sprintf("the native connection was still open 8 s after failing authentication (%d bytes of a further frame were sent behind the rejected request)", k), abstract)
 	}
 	if inv := rg.invokedCount() - before; inv > 0 {
 		o.Fail(id, "handler-reached", fmt.Sprintf("%d handler(s) ran on a connection that failed authentication", inv), abstract)
